@@ -186,6 +186,30 @@ def check(plan, script):
     r = call(e.to_string)
     if not r.ok or r.value != r1.value:
         return F('subtree-serialisation-changed-root-output', r.etype if not r.ok else 'text differs'), 'built', True
+    # the raw text of every subtree (two levels) is the same whether it is serialised before any ancestor (fresh
+    # twin), after the root, or once more after another root call - "changes no later result" read literally
+    def sub_texts(x):
+        out = []
+        for c in call(x.get_children, True).value or []:
+            rc = call(c.to_string)
+            out.append(rc.value if rc.ok else 'exc:' + str(rc.etype))
+            for g in call(c.get_children, True).value or []:
+                rg = call(g.to_string)
+                out.append(rg.value if rg.ok else 'exc:' + str(rg.etype))
+        return out
+    rf = call(c14.build, plan)
+    if rf.ok:
+        first = sub_texts(rf.value)          # nothing above them has been serialised yet
+        after_root = sub_texts(e)            # e: root and children serialised several times already
+        call(rf.value.to_string)
+        again = sub_texts(rf.value)
+        if not (first == after_root == again):
+            i = next((j for j in range(min(len(first), len(after_root), len(again)))
+                      if not (first[j] == after_root[j] == again[j])), -1)
+            return F('subtree-text-depends-on-earlier-serialisation',
+                     {'index': i, 'before_any_ancestor': repr(first[i])[:200] if i >= 0 else len(first),
+                      'after_root': repr(after_root[i])[:200] if i >= 0 else len(after_root),
+                      'after_root_again': repr(again[i])[:200] if i >= 0 else len(again)}), 'built', True
     # side-effect freedom under mutation: twin without the intermediate serialisations
     a = e
     b = c14.build(plan)
